@@ -172,7 +172,30 @@ def handleOne : List String → String
     | none => "bad-op"
   | _ => "bad-op"
 
+def soloTx (h cut : Int) (t : TxFacts) (total : Int) : String :=
+  s!"san={txSanityClass t} cb={b01 t.isCoinbase} so={t.legacySigops} fin={b01 (t.final h cut)} " ++
+  s!"w={t.strippedSize * (WITNESS_SCALE_FACTOR - 1) + total}"
+
+def cbhAnswer (script : List Nat) (want : Int) : String :=
+  let e := match extractHeight script with
+    | .ok h => s!"h:{h}"
+    | .error .missing => "missing"
+    | .error .bad => "bad"
+  s!"{e} chk={if checkSerializedHeight script want then "ok" else "bip34"}"
+
 def handle : List String → String
+  | ["txs", h, cut, _hex, total, tx] =>
+    match h.toInt?, cut.toInt?, total.toInt?, pTx? tx with
+    | some h, some cut, some total, some t => soloTx h cut t total
+    | _, _, _, _ => "bad-op"
+  | ["cbh", script, want] =>
+    match (if script == "-" then some [] else hexToList? script), want.toInt? with
+    | some bs, some w => cbhAnswer (bs.map (·.toNat)) w
+    | _, _ => "bad-op"
+  | ["sub", h, iv] =>
+    match h.toInt?, iv.toInt? with
+    | some h, some iv => toString (subsidy h iv)
+    | _, _ => "bad-op"
   | "par" :: rest => String.intercalate " | " ((splitBar rest).map handleOne)
   | l => handleOne l
 
